@@ -59,7 +59,7 @@ COMPONENTS = {
 def plan(tier: str) -> Dict[str, Any]:
     if tier == "thorough":
         return {"runs": 1_500_000, "chunk": 1000, "budget_s": 780, "chunk_hard_s": 900, "minimise_s": 60}
-    return {"runs": 60_000, "chunk": 250, "budget_s": 45, "chunk_hard_s": 300, "minimise_s": 30}
+    return {"runs": 40_000, "chunk": 250, "budget_s": 45, "chunk_hard_s": 300, "minimise_s": 30}
 
 
 # ---------------------------------------------------------------------------
@@ -194,8 +194,13 @@ def _doc_text(rng) -> Tuple[str, str]:
         kind = "big-numbers"
     elif r < 0.86:
         return rng.choice(('[NaN, 1]', '{"a": Infinity, "b": [-Infinity]}', '[1, {"a": NaN}]')), "nan"
-    elif r < 0.92:
+    elif r < 0.905:
         return '{"a": 1, "a": 2, "b": [{"a": 3, "a": 4}]}', "dup-keys"
+    elif r < 0.917:
+        # larger than any single buffer or pipe: a tool that reads only the first block shows
+        n = rng.choice((3000, 20000))
+        v = {"a": list(range(n)), "b": ["x" * 50] * 200, "c": {"a": "tail-marker"}}
+        return json.dumps(v), f"large-{n}"
     else:
         depth = rng.choice((5, 50, 99, 100, 101, 150, 300))
         s = "[" * depth + "1" + "]" * depth
@@ -479,6 +484,29 @@ def replay(payload: Dict[str, Any]) -> List[Dict[str, Any]]:
 
 def shrink_candidates(payload: Dict[str, Any]):
     sc = payload["scenario"]
+    # a simpler query (only when given inline or by file without byte faults)
+    if sc["qfile_fault"] == "none" and sc["query_effective"] is not None:
+        for q2 in ("$", "$..*", "$.*", "$[0]", "$.a"):
+            if len(q2) < len(sc["query_effective"]):
+                argv = list(sc["argv"])
+                files = dict(sc["files"])
+                done = False
+                for i, a in enumerate(argv):
+                    if a == "-q" and i + 1 < len(argv):
+                        argv[i + 1] = q2
+                        done = True
+                    elif a.startswith("--query="):
+                        argv[i] = "--query=" + q2
+                        done = True
+                if "/q.jsonpath" in files:
+                    files["/q.jsonpath"] = q2
+                    done = True
+                if done:
+                    yield {"scenario": {**sc, "argv": argv, "files": files, "query_effective": q2}}
+    if sc["stdin_errors"] != "strict":
+        yield {"scenario": {**sc, "stdin_errors": "strict"}}
+    if "--debug" in sc["argv"] and False:
+        pass
     # options first
     for opt in ("--pretty", "--debug"):
         if opt in sc["argv"] and opt != "--debug":
